@@ -858,6 +858,62 @@ class Normaliser:
         if any(l.startswith('N1') for l in self.log):
             for m in self.modules.values():
                 _fold_int_arith(m.tree)
+        # N12: a slice bound that became the literal 0 after a flag was propagated (`elements[(0 if True else 1):-1]`) is the
+        # omitted bound: seq[0:b] and seq[:b] denote the same items for every sequence when no step is given
+        for m in self.modules.values():
+            for n in ast.walk(m.tree):
+                if isinstance(n, ast.Slice) and n.step is None and isinstance(n.lower, ast.Constant) and type(n.lower.value) is int and n.lower.value == 0:
+                    n.lower = None
+        # N11: a view parameter of an inlined helper was forward-substituted: `X[0, p][e]` (element of a row view) is the element
+        # `X[0, p, e]`.  Only when the row is itself addressed by a tuple index (which only an array accepts: a list or tuple held in
+        # a field, `self.Tparameters[1][0]`, is left alone), only in functions that received a forward substitution, and only when every index is an integer
+        # literal or the variable of a `for .. in range(..)` loop (basic indexing: the two forms denote the same element)
+        touched = set()
+        for l in self.log:
+            if l.startswith('N4 ') and 'forward-substituted' in l and '::' in l:
+                pq = l[3:].split(': ', 1)[0]
+                touched.add(tuple(pq.split('::', 1)))
+        for path, q in sorted(touched):
+            m = self.modules.get(path)
+            if m is None:
+                continue
+            for q2, f, _cn in func_quals(m.tree):
+                if q2 != q:
+                    continue
+                ints = set()
+                nrange = {}
+                for n in ast.walk(f):
+                    if isinstance(n, ast.For) and isinstance(n.target, ast.Name) and isinstance(n.iter, ast.Call) and isinstance(n.iter.func, ast.Name) and n.iter.func.id == 'range':
+                        ints.add(n.target.id)
+                        nrange[n.target.id] = nrange.get(n.target.id, 0) + 1
+                stores = {}
+                for n in ast.walk(f):
+                    if isinstance(n, ast.Name) and isinstance(n.ctx, ast.Store):
+                        stores[n.id] = stores.get(n.id, 0) + 1
+                # every binding of the name is a range-loop target
+                stores = {k_: (1 if v_ == nrange.get(k_, 0) else 2) for k_, v_ in stores.items()}
+
+                def is_int(e):
+                    if isinstance(e, ast.Constant) and type(e.value) is int:
+                        return True
+                    return isinstance(e, ast.Name) and e.id in ints and stores.get(e.id, 0) == 1
+
+                def idx(sl):
+                    return list(sl.elts) if isinstance(sl, ast.Tuple) else [sl]
+                changed = True
+                nmerge = 0
+                while changed:
+                    changed = False
+                    for n in ast.walk(f):
+                        if isinstance(n, ast.Subscript) and isinstance(n.value, ast.Subscript) and all(is_int(e) for e in idx(n.slice)) and all(is_int(e) for e in idx(n.value.slice)) \
+                                and isinstance(n.value.value, ast.Attribute) and isinstance(n.value.slice, ast.Tuple) and len(n.value.slice.elts) >= 2:
+                            n.slice = ast.Tuple(elts=idx(n.value.slice) + idx(n.slice), ctx=ast.Load())
+                            n.value = n.value.value
+                            changed = True
+                            nmerge += 1
+                            break
+                if nmerge:
+                    self.log.append(f'N11 {path}::{q}: {nmerge} element access(es) through a substituted row view written as one subscript')
         for m in self.modules.values():
             ast.fix_missing_locations(m.tree)
         return self.log
@@ -953,6 +1009,22 @@ class Normaliser:
                     if (bm is None or q not in bm['funcs']) and self._inlinable_def(f, None) and not any(
                             isinstance(al, ast.alias) and al.name == name for m_ in self.modules.values() for n_ in ast.walk(m_.tree) if isinstance(n_, ast.ImportFrom) for al in n_.names):
                         self.local_helpers[(path, name)] = Helper(path, None, f, q, 'function')
+        # (path, class, name) -> Helper: a new private method of the same name in several classes that are unrelated by inheritance
+        # (`_setSchedule` in the two TemperatureParameters classes); resolved only for calls on `self` inside the defining class
+        self.class_helpers = {}
+        all_classes = [(path_, node_) for path_, mod_ in self.modules.items() for node_ in mod_.tree.body if isinstance(node_, ast.ClassDef)]
+        for name, lst in defs.items():
+            if len(lst) > 1 and all(c_ is not None for _, _, _, c_ in lst) and len({(p_, c_) for p_, _, _, c_ in lst}) == len(lst):
+                owners = {c_ for _, _, _, c_ in lst}
+                # no class of the package derives (by a direct base name) from an owner: `self` in the owner is an instance of the owner
+                derived = any((isinstance(b, ast.Name) and b.id in owners) or (isinstance(b, ast.Attribute) and b.attr in owners) for _, cn in all_classes for b in cn.bases)
+                if derived or any(sum(1 for p2, cn in all_classes if p2 == p_ and cn.name == c_) != 1 for p_, _, _, c_ in lst):
+                    continue
+                for path, q, f, cls in lst:
+                    bm = self.base.get(path)
+                    dec = _decorators(f)
+                    if (bm is None or q not in bm['funcs']) and self._inlinable_def(f, cls) and not dec:
+                        self.class_helpers[(path, cls, name)] = Helper(path, cls, f, q, 'method')
         for name, lst in defs.items():
             if len(lst) != 1:
                 continue
@@ -1211,7 +1283,7 @@ class Normaliser:
         if getattr(func, '_kv_norm', False) or key in self.inprogress:
             return
         # fast exit: nothing in this function refers to a new helper and it defines no nested function
-        hs = set(self.helpers) | {n_ for (p_, n_) in self.local_helpers if p_ == path}
+        hs = set(self.helpers) | {n_ for (p_, n_) in self.local_helpers if p_ == path} | {n_ for (p_, c_, n_) in getattr(self, 'class_helpers', {}) if p_ == path}
         touched = False
         for n in ast.walk(func):
             if isinstance(n, ast.Attribute) and n.attr in hs:
@@ -1335,6 +1407,9 @@ class Normaliser:
             return None
         if isinstance(f, ast.Attribute):
             h = self.helpers.get(f.attr)
+            if not h and isinstance(f.value, ast.Name) and '.' in fctx['qual'] and fctx['func'].args.args and f.value.id == fctx['func'].args.args[0].arg \
+                    and not ({'staticmethod', 'classmethod'} & set(_decorators(fctx['func']))):
+                h = self.class_helpers.get((fctx['path'], fctx['qual'].split('.')[0], f.attr))
             if not h or h.kind == 'function' or h.func is fctx['func']:
                 return None
             if not _is_path(f.value):
